@@ -8,6 +8,7 @@ import (
 	"fmt"
 	"io"
 	"net"
+	"os"
 	"strings"
 	"testing"
 	"time"
@@ -363,6 +364,12 @@ func TestVerif_C04(t *testing.T) {
 	b := vrt.Pick(r, 2, 3)
 	var scs []mcx.Scenario
 	add := func(name string, bound int, tf bool, cfg c04cfg) {
+		if f := os.Getenv("VERIF_SCENARIO"); f != "" && !strings.Contains(name, f) {
+			return
+		}
+		if ob := os.Getenv("VERIF_BOUND"); ob != "" {
+			fmt.Sscan(ob, &bound)
+		}
 		scs = append(scs, mcx.Scenario{Name: name, Cfg: mcrt.Config{Bound: bound, TimerFirst: tf, Horizon: 6000}, Body: c04body1(cfg), Check: c04check(cfg)})
 	}
 	_ = b
@@ -374,17 +381,85 @@ func TestVerif_C04(t *testing.T) {
 func c04scenarios(r *vrt.R, add func(name string, bound int, tf bool, cfg c04cfg)) {
 	b := vrt.Pick(r, 2, 3)
 	sec := time.Second
+	one := func(cs ...c04call) [][]c04call { return [][]c04call{cs} }
 	// --- streamed bodies closed before their end, connection reused by the next call of the same thread
 	for _, fr := range []string{"chunked", "cl"} {
-		beh := c04beh{chunked: fr == "chunked", split: true, delay: sec, nested: true}
+		ch := fr == "chunked"
+		beh := c04beh{chunked: ch, split: true, delay: sec, nested: true}
 		mb := 0
-		if fr == "cl" {
+		if !ch {
 			mb = 4
 		}
 		for mode, mn := range []string{"readall", "readpart", "unread"} {
 			add(fmt.Sprintf("host/stream/%s/1caller-2calls/%s", fr, mn), b, false, c04cfg{maxConns: 1, stream: true, maxBody: mb,
-				callers: [][]c04call{{{id: "A", mode: mode}, {id: "B", mode: c04ReadAll}}},
-				beh:     map[string]c04beh{"A": beh, "B": {chunked: fr == "chunked"}}})
+				callers: one(c04call{id: "A", mode: mode}, c04call{id: "B"}),
+				beh:     map[string]c04beh{"A": beh, "B": {chunked: ch}}})
 		}
 	}
+	// the tail is written without a delay: only some interleavings leave it unread on the connection
+	add("host/stream/chunked/1caller-2calls/readpart-nodelay", b, false, c04cfg{maxConns: 1, stream: true,
+		callers: one(c04call{id: "A", mode: c04ReadPart}, c04call{id: "B"}),
+		beh:     map[string]c04beh{"A": {chunked: true, split: true, nested: true}, "B": {chunked: true}}})
+	// plain (not HTTP-shaped) tail, one retry allowed: the next call may fail or be retried, it must never succeed with foreign bytes
+	add("host/stream/chunked/1caller-2calls/readpart-plain-tail-retry", b, false, c04cfg{maxConns: 1, stream: true, attempts: 2,
+		callers: one(c04call{id: "A", mode: c04ReadPart}, c04call{id: "B"}),
+		beh:     map[string]c04beh{"A": {chunked: true, split: true, delay: sec}, "B": {chunked: true}}})
+	// two threads: the second waits for the only connection and gets it handed over by the early close
+	add("host/stream/chunked/2callers-handover/readpart", b, false, c04cfg{maxConns: 1, stream: true, waitTimeout: 10 * sec,
+		callers: [][]c04call{{{id: "A", mode: c04ReadPart}}, {{id: "B"}}},
+		beh:     map[string]c04beh{"A": {chunked: true, split: true, delay: sec, nested: true}, "B": {chunked: true}}})
+	add("host/stream/chunked/2callers-2conns/mixed", b, false, c04cfg{maxConns: 2, stream: true,
+		callers: [][]c04call{{{id: "A", mode: c04ReadPart}, {id: "C"}}, {{id: "B", mode: c04CloseUnread}, {id: "D", mode: c04ReadPart}}},
+		beh: map[string]c04beh{"A": {chunked: true, split: true, nested: true}, "B": {chunked: true, split: true, nested: true, close: true},
+			"C": {chunked: true}, "D": {chunked: true, split: true}}})
+	// streamed body whose tail arrives after the call's deadline: the read fails, the caller closes the stream
+	add("host/stream/chunked/deadline-between-writes", b, true, c04cfg{maxConns: 1, stream: true,
+		callers: one(c04call{id: "A", timeout: sec}, c04call{id: "B", after: 2 * sec}),
+		beh:     map[string]c04beh{"A": {chunked: true, split: true, delay: 2 * sec, nested: true}, "B": {chunked: true}}})
+	// --- buffered bodies
+	add("host/plain/2callers-2calls/2conns", b, false, c04cfg{maxConns: 2,
+		callers: [][]c04call{{{id: "A"}, {id: "C"}}, {{id: "B"}, {id: "D"}}},
+		beh:     map[string]c04beh{"A": {split: true, nested: true}, "B": {close: true}, "C": {chunked: true, split: true}, "D": {}}})
+	add("host/plain/3callers/2conns-wait", b, false, c04cfg{maxConns: 2, waitTimeout: 10 * sec,
+		callers: [][]c04call{{{id: "A"}}, {{id: "B"}}, {{id: "C"}}},
+		beh:     map[string]c04beh{"A": {split: true, nested: true}, "B": {chunked: true, close: true}, "C": {}}})
+	add("host/plain/2callers/cut-mid-body", b, false, c04cfg{maxConns: 1, waitTimeout: 10 * sec,
+		callers: [][]c04call{{{id: "A"}}, {{id: "B"}}},
+		beh:     map[string]c04beh{"A": {cut: true, nested: true}, "B": {}}})
+	add("host/plain/cut-then-retry", b, false, c04cfg{maxConns: 1, attempts: 2,
+		callers: one(c04call{id: "A"}, c04call{id: "B"}),
+		beh:     map[string]c04beh{"A": {cut: true, chunked: true}, "B": {}}})
+	// --- timeouts while the server is still answering
+	add("host/plain/readtimeout/stall-past-deadline", b, true, c04cfg{maxConns: 1, readTimeout: sec,
+		callers: one(c04call{id: "A"}, c04call{id: "B", after: 2 * sec}),
+		beh:     map[string]c04beh{"A": {stall: 2 * sec}, "B": {}}})
+	add("host/plain/dotimeout/deadline-between-writes", b, true, c04cfg{maxConns: 1,
+		callers: one(c04call{id: "A", timeout: sec}, c04call{id: "B", after: 2 * sec}),
+		beh:     map[string]c04beh{"A": {split: true, delay: 2 * sec, nested: true}, "B": {}}})
+	add("host/plain/dotimeout/2callers-stall", b, true, c04cfg{maxConns: 1, waitTimeout: 10 * sec,
+		callers: [][]c04call{{{id: "A", timeout: sec}}, {{id: "B", timeout: 5 * sec}}},
+		beh:     map[string]c04beh{"A": {stall: 2 * sec}, "B": {}}})
+	add("host/plain/dotimeout/answer-races-deadline", b, true, c04cfg{maxConns: 1,
+		callers: one(c04call{id: "A", timeout: sec}, c04call{id: "B"}),
+		beh:     map[string]c04beh{"A": {stall: sec}, "B": {}}})
+	// --- PipelineClient
+	pb := vrt.Pick(r, 1, 2)
+	add("pipeline/2callers/do", pb, false, c04cfg{pipeline: true, maxConns: 1, maxPending: 2,
+		callers: [][]c04call{{{id: "A"}}, {{id: "B"}}},
+		beh:     map[string]c04beh{"A": {split: true, nested: true}, "B": {chunked: true}}})
+	add("pipeline/1caller-2calls/do", b, false, c04cfg{pipeline: true, maxConns: 1, maxPending: 2,
+		callers: one(c04call{id: "A"}, c04call{id: "B"}),
+		beh:     map[string]c04beh{"A": {split: true, delay: sec, nested: true}, "B": {chunked: true}}})
+	add("pipeline/2callers/first-times-out", pb, true, c04cfg{pipeline: true, maxConns: 1, maxPending: 2,
+		callers: [][]c04call{{{id: "A", timeout: sec}}, {{id: "B", timeout: 5 * sec}}},
+		beh:     map[string]c04beh{"A": {stall: 2 * sec, nested: true, split: true}, "B": {}}})
+	add("pipeline/2callers/server-closes-after-first", pb, false, c04cfg{pipeline: true, maxConns: 1, maxPending: 2,
+		callers: [][]c04call{{{id: "A"}}, {{id: "B"}}},
+		beh:     map[string]c04beh{"A": {close: true}, "B": {}}})
+	add("pipeline/2callers/cut-mid-body", pb, false, c04cfg{pipeline: true, maxConns: 1, maxPending: 2,
+		callers: [][]c04call{{{id: "A"}}, {{id: "B"}}},
+		beh:     map[string]c04beh{"A": {cut: true, nested: true}, "B": {}}})
+	add("pipeline/3callers/do", vrt.Pick(r, 1, 1), false, c04cfg{pipeline: true, maxConns: 1, maxPending: 2,
+		callers: [][]c04call{{{id: "A"}}, {{id: "B"}}, {{id: "C"}}},
+		beh:     map[string]c04beh{"A": {split: true, nested: true}, "B": {chunked: true}, "C": {}}})
 }
